@@ -495,6 +495,8 @@ def sdss_specobjid(plate, fiber, mjd, run2d, line=None, index=None):
                 raise ValueError("Could not extract integer run2d value!")
             else:
                 N, M, P = m.groups()
+                if not (5 <= int(N) <= 6 and int(M) <= 99 and int(P) <= 99):
+                    raise ValueError("run2d string values are out-of-bounds!")
             run2d = np.array([(int(N) - 5)*10000 + int(M) * 100 + int(P)],
                              dtype=np.uint64)
     elif isinstance(run2d, int):
